@@ -461,6 +461,13 @@ func (x *c13World) check() string {
 			r = rank[s.id]
 		}
 		fmt.Fprintf(&sb, " s%d:%d/%d/%q", k, s.status, r, s.auto)
+		// the implementation's own per-connection state is part of the state (for deduplication only, no oracle
+		// looks at it): if it diverges from the model the state must be expanded, not merged
+		if s.status != 0 {
+			if cc := x.wd.Srv.ClientMgr.Get([2]byte{byte(s.id >> 8), byte(s.id)}); cc != nil {
+				fmt.Fprintf(&sb, "/impl:%q/%x", cc.AutoReply, cc.Flags[:])
+			}
+		}
 	}
 	for _, a := range c13SlotAcct[1:] {
 		acc := x.wd.Srv.AccountManager.Get(a)
